@@ -25,16 +25,17 @@
 
     // whole-state frame: every field except number `skip` (and `skip2`) is unchanged
     //   0 version  1 send  2 objects  3 events  4 all_events  5 subscriptions  6 senders  7 receivers  8 bus_listeners  9 calls
-    spec fn rest_eq2(&self, o: &Self, skip: int, skip2: int) -> bool {
-        &&& (skip == 0 || skip2 == 0 || self.version == o.version)
-        &&& (skip == 1 || skip2 == 1 || self.send == o.send)
-        &&& (skip == 2 || skip2 == 2 || self.objects == o.objects)
-        &&& (skip == 3 || skip2 == 3 || self.events == o.events)
-        &&& (skip == 4 || skip2 == 4 || self.all_events == o.all_events)
-        &&& (skip == 5 || skip2 == 5 || self.subscriptions == o.subscriptions)
-        &&& (skip == 6 || skip2 == 6 || self.senders == o.senders)
-        &&& (skip == 7 || skip2 == 7 || self.receivers == o.receivers)
-        &&& (skip == 8 || skip2 == 8 || self.bus_listeners == o.bus_listeners)
-        &&& (skip == 9 || skip2 == 9 || self.calls == o.calls)
+    spec fn rest_eq3(&self, o: &Self, skip: int, skip2: int, skip3: int) -> bool {
+        &&& (skip == 0 || skip2 == 0 || skip3 == 0 || self.version == o.version)
+        &&& (skip == 1 || skip2 == 1 || skip3 == 1 || self.send == o.send)
+        &&& (skip == 2 || skip2 == 2 || skip3 == 2 || self.objects == o.objects)
+        &&& (skip == 3 || skip2 == 3 || skip3 == 3 || self.events == o.events)
+        &&& (skip == 4 || skip2 == 4 || skip3 == 4 || self.all_events == o.all_events)
+        &&& (skip == 5 || skip2 == 5 || skip3 == 5 || self.subscriptions == o.subscriptions)
+        &&& (skip == 6 || skip2 == 6 || skip3 == 6 || self.senders == o.senders)
+        &&& (skip == 7 || skip2 == 7 || skip3 == 7 || self.receivers == o.receivers)
+        &&& (skip == 8 || skip2 == 8 || skip3 == 8 || self.bus_listeners == o.bus_listeners)
+        &&& (skip == 9 || skip2 == 9 || skip3 == 9 || self.calls == o.calls)
     }
-    spec fn rest_eq(&self, o: &Self, skip: int) -> bool { self.rest_eq2(o, skip, -1) }
+    spec fn rest_eq2(&self, o: &Self, skip: int, skip2: int) -> bool { self.rest_eq3(o, skip, skip2, -1) }
+    spec fn rest_eq(&self, o: &Self, skip: int) -> bool { self.rest_eq3(o, skip, -1, -1) }
